@@ -751,6 +751,19 @@ class UserAccount(_Observable):
     ])
     _id_contributing_properties = ["account_type", "user_id", "account_login"]
 
+    def _check_object_constraints(self):
+        super(UserAccount, self)._check_object_constraints()
+
+        # "As all properties of this object are optional, at least one of the
+        # properties defined below MUST be included when using this object."
+        self._check_at_least_one_property([
+            'user_id', 'credential', 'account_login', 'account_type',
+            'display_name', 'is_service_account', 'is_privileged',
+            'can_escalate_privs', 'is_disabled', 'account_created',
+            'account_expires', 'credential_last_changed',
+            'account_first_login', 'account_last_login', 'extensions',
+        ])
+
 
 class WindowsRegistryValueType(_STIXBase21):
     """For more detailed information on this object's properties, see
@@ -791,6 +804,16 @@ class WindowsRegistryKey(_Observable):
         ('extensions', ExtensionsProperty(spec_version='2.1')),
     ])
     _id_contributing_properties = ["key", "values"]
+
+    def _check_object_constraints(self):
+        super(WindowsRegistryKey, self)._check_object_constraints()
+
+        # "As all properties of this object are optional, at least one of the
+        # properties defined below MUST be included when using this object."
+        self._check_at_least_one_property([
+            'key', 'values', 'modified_time', 'creator_user_ref',
+            'number_of_subkeys', 'extensions',
+        ])
 
 
 class X509V3ExtensionsType(_STIXBase21):
